@@ -3,7 +3,7 @@
    Flocq's Zfloor/Zceil. *)
 From Coq Require Import Reals Lra ZArith Bool List.
 From Flocq Require Import Core.Raux.
-From SC Require Import Num Vec3 VecR Kernel KernelProofs Grid Contact ContactProofsB.
+From SC Require Import Num Vec3 VecR Kernel KernelProofs Grid Contact ContactProofsB ContactProofsC.
 Import ListNotations.
 Local Open Scope R_scope.
 
@@ -20,6 +20,7 @@ Section C06.
   Notation cut2_maxR := (cut2_max NumR cut_adh cut_rep).
   Notation phaseR := (contact_phase NumR Zfloor Zceil eps dmax inf c45 c90 lmin cut_adh cut_rep).
   Notation all_pairsR := (all_pairs_phase NumR Zceil eps dmax inf c45 c90 lmin cut_adh cut_rep).
+  Notation all_pairs_noboxR := (all_pairs_nobox_phase NumR Zceil eps dmax inf c45 c90 lmin cut_adh cut_rep).
 
   (* narrow range implies the broad-phase box: a point whose squared distance to a triangle is below the largest
      squared cut-off lies in the triangle's padded bounding box *)
@@ -47,7 +48,21 @@ Section C06.
   Theorem grid_equals_all_pairs : forall st r s,
     phaseR st = Some (r, s) -> all_pairsR st = Some r.
   Proof. exact (grid_all_pairs eps dmax inf c45 c90 lmin cut_adh cut_rep Hlmin Hadh Hrep). Qed.
+
+  (* ... and the bounding-box test itself only discards pairs that the narrow phase leaves alone: with NO box test at
+     all (every node against every face of every other cell) the result is still the same.  This is the statement of
+     the property: "the spatial acceleration structure only discards node-triangle pairs that are farther apart than
+     the cut-off" *)
+  Definition faces_nondegenerate (st : Contact.state (T:=R)) : Prop :=
+    forall c f a b cc, In c st -> In f (cc_faces c) ->
+      nth_error (cc_nodes c) (cf_n1 f) = Some a -> nth_error (cc_nodes c) (cf_n2 f) = Some b -> nth_error (cc_nodes c) (cf_n3 f) = Some cc ->
+      nondegenerate (cn_pos a) (cn_pos b) (cn_pos cc).
+  Theorem grid_equals_unfiltered_all_pairs : forall st r s,
+    faces_nondegenerate st -> cut_adh * cut_adh <= dmax ->
+    phaseR st = Some (r, s) -> all_pairs_noboxR st = Some r.
+  Proof. exact (grid_all_pairs_nobox eps dmax inf c45 c90 lmin cut_adh cut_rep Hlmin Hadh Hrep). Qed.
 End C06.
+Print Assumptions grid_equals_unfiltered_all_pairs.
 Print Assumptions within_cutoff_in_box.
 Print Assumptions candidate_complete.
 Print Assumptions candidate_once.
